@@ -75,6 +75,30 @@ pub fn rules(th: bool) -> Vec<(String, String, String)> {
             ));
         }
     }
+    // YAML booleans / numbers next to string members (they cannot carry an i prefix and stay
+    // case-sensitive literals in both builds)
+    for (plain, pref) in [
+        ("[true, false, \"enabled\"]", "[true, false, \"ienabled\"]"),
+        ("[true]", "[true]"),
+        ("[1, 1.5, \"a*\"]", "[1, 1.5, \"ia*\"]"),
+        ("[.inf, \"A\"]", "[.inf, \"iA\"]"),
+        ("[null, \"a\"]", "[null, \"ia\"]"),
+    ] {
+        for k in ["str(f)", "f", "not(f)"] {
+            out.push((
+                format!("{}: {}", k, plain),
+                wrap(&format!("{{{}: {}}}", q(k), plain)),
+                wrap(&format!("{{{}: {}}}", q(k), pref)),
+            ));
+        }
+    }
+    for (plain, pref) in [("true", "true"), ("1", "1"), ("1.5", "1.5")] {
+        out.push((
+            format!("str(f): {}", plain),
+            wrap(&format!("{{\"str(f)\": {}}}", plain)),
+            wrap(&format!("{{\"str(f)\": {}}}", pref)),
+        ));
+    }
     // nested and sequences
     for p in ["a", "A*", "*i", "?a", "i"] {
         out.push((
@@ -95,6 +119,9 @@ pub fn docs() -> Vec<MObj> {
     let mut out = vec![MObj::new()];
     for t in strings(&["a", "A", "i", "I", "b"], 3) {
         out.push(MObj::new().with("f", s(&t)));
+    }
+    for t in ["TRUE", "True", "ENABLED", "Enabled", "INF", "inf", "1.5", "NAN"] {
+        out.push(MObj::new().with("f", s(t)));
     }
     for t in ["ab", "AB", "aB", "Ab", "ba", "iA", "Ia", "1", "2", "true"] {
         out.push(MObj::new().with("f", s(t)).with("g", s(t)));
